@@ -3,3 +3,4 @@ import QhttpGen.Ack
 import QhttpGen.Tables
 import QhttpGen.Copier
 import QhttpGen.Sock
+import QhttpGen.Parser
